@@ -694,6 +694,13 @@ class Oracle:
                 self.registered = None
                 self.ended = True
                 return None
+            if self.c19 and self.tainted and w_is_module(self.w) and isinstance(obs.exc, _json.JSONDecodeError):
+                # module-level purge re-creates the cache object: a configuration file torn by an earlier
+                # crash or full disk makes the directory unopenable - nothing is served (as for REOPEN)
+                self.probe("config_torn_unopenable")
+                self.registered = None
+                self.ended = True
+                return None
             return self._v("18d" if not self.c19 else "19d-poison", "purge() raised %r" % (obs.exc,), obs)
         new_reg = {i for i, b in enumerate(obs.in_cache) if b}
         if new_reg and not self.c19:
